@@ -115,12 +115,15 @@ Section Polygon.
                   else Ok aux1);
       rebuild wrap outer_normal tl (S i) min_ext hole iv_id aux2
     end.
+  (** the squared distance the nearest-pair scan starts from: 9E14 on the pinned snapshot (a hole farther than 3e7
+      from the outline was never selected), Float::MAX since fix f0d596d.  The pinned value goes with [wrap = true]. *)
   Definition c9e14 : K := nofZ 900000000000000.
+  Definition scan_start (wrap : bool) : K := if wrap then c9e14 else nmaxf.
   Fixpoint merge_holes (wrap : bool) (P : Poly) (count : nat) (ret_loop : Loop K) (processed : list nat) (il iv_id : nat) : res (Loop K) :=
     match count with
     | O => Ok ret_loop
     | S c =>
-      let '(md, me, ml, il', iv') := scan_ext (verts ret_loop) 0 (pinner P) processed (c9e14, O, O, il, iv_id) in
+      let '(md, me, ml, il', iv') := scan_ext (verts ret_loop) 0 (pinner P) processed (scan_start wrap, O, O, il, iv_id) in
       match nth_error (pinner P) ml with
       | None => Panic 21%N
       | Some hole =>
